@@ -16,7 +16,7 @@ def _exprs_of(fn):
     for n in fn.nodes():
         if not n.ev:
             continue
-        for key in ("x", "rhs", "lhs"):
+        for key in ("x", "rhs0" if "rhs0" in n.ev else "rhs", "lhs"):
             e = n.ev.get(key)
             if isinstance(e, dict):
                 yield n.line, e
